@@ -228,9 +228,12 @@ func goIntLit(t types.Type, v uint64) string {
 func runReplay(w *World, r *HarnessResult, o *Obligation, replayPath string, args []string) (bool, string) {
 	fn := r.Harness.Fn
 	pkgPath := fn.Pkg.Pkg.Path()
-	dir := "/repo"
+	dir := w.RepoDir
+	if dir == "" {
+		dir = "/repo"
+	}
 	if strings.HasSuffix(pkgPath, "/commit") {
-		dir = "/repo/commit"
+		dir = filepath.Join(dir, "commit")
 	}
 	label := o.Name[strings.Index(o.Name, "#")+1:]
 	if i := strings.Index(label, "@"); i >= 0 {
